@@ -184,6 +184,8 @@ class Evaluator:
             t = re.sub(r"^&('\w+ )?(mut )?", '', t)
             m = re.match(r'(?:alloc::rc::)?Rc<(.*)>$', t)
             return m.group(1) if m else t
+        if place[0] == 'fld' and len(place) > 3:
+            return place[3]
         return '?'
 
     def raw_place(self, fn, place, env):
@@ -385,8 +387,15 @@ class Evaluator:
             if len(out) > self.MAX_PATHS:
                 raise AnalysisError(f'{fn.short}: more than {self.MAX_PATHS} paths')
             if bb in visited:
-                out.append(Path(conds, events, ('back', bb), None, env, visited + [bb]))
-                return
+                # a loop over a literal array (`for x in [a, b, c]`) is unrolled: re-entering a block is allowed while the position of
+                # a concrete array iterator has advanced since the last visit; any other back edge ends the path
+                its = [v[2] for v in env.values() if isinstance(v, tuple) and v and v[0] == 'arrayiter']
+                if not its or env.get('__prog__', {}).get(bb, -1) >= sum(its):
+                    out.append(Path(conds, events, ('back', bb), None, env, visited + [bb]))
+                    return
+            if any(isinstance(v, tuple) and v and v[0] == 'arrayiter' for v in env.values()):
+                env['__prog__'] = {**env.get('__prog__', {}),
+                                   bb: sum(v[2] for v in env.values() if isinstance(v, tuple) and v and v[0] == 'arrayiter')}
             if bb in stops and bb != entry:
                 out.append(Path(conds, events, ('stop', bb), None, env, visited + [bb]))
                 return
@@ -552,6 +561,16 @@ class Evaluator:
                 val = args[0]
         elif name in ITER_MAKERS:
             val = ('iter', args[0])
+        elif name == 'Iterator::next' and len(raw_args) == 1 and self._is_ref(raw_args[0]) and self._array_iter(env.get(raw_args[0][1])) is not None:
+            # next() on an iterator over a literal array: the elements in order, then None
+            n = raw_args[0][1]
+            elems, pos = self._array_iter(env.get(n))
+            if pos < len(elems):
+                val = ('agg', 'Option::Some', ((0, self.res(elems[pos], env)),))
+                env[n] = ('arrayiter', elems, pos + 1)
+            else:
+                val = ('agg', 'Option::None', ())
+                env[n] = ('arrayiter', elems, pos + 1)          # the exhausted state is a step forward too
         elif name in ('Vec::new', 'Vec::with_capacity'):
             val = ('vec', fn.short, bb)        # identity of a fresh vector = its creation site
         elif name in ('Option::expect', 'Option::unwrap', 'Result::expect', 'Result::unwrap'):
@@ -573,14 +592,42 @@ class Evaluator:
             if alt is not None:
                 key = ('variant', opt, 'Option')
                 for lab, value in (('Some', self.project(('down', opt, 'Some'), 0, env)), ('None', alt)):
-                    if key in decided and decided[key] != ('is', lab):
+                    if key in decided and not self._variant_possible(decided[key], lab):
                         continue
                     e2 = dict(env)
                     ev2 = list(events)
                     self.assign(fn, t.dest, value, e2, ev2, bb)
                     d2 = dict(decided)
                     d2[key] = ('is', lab)
-                    c2 = conds if key in decided else conds + [(key, lab)]
+                    c2 = conds if (key in decided and decided[key][0] == 'is') else conds + [(key, lab)]
+                    self._walk(fn, ret_bb, e2, c2, ev2, visited, d2, stops, out, depth, entry)
+                return None
+        elif name in ('Option::map', 'Option::and_then') and len(args) == 2 and args[1][0] == 'closure' and ret_bb is not None:
+            # `opt.map(f)` == match opt { Some(x) => Some(f(x)), None => None }: fork the path (and_then: f(x) itself)
+            opt = args[0]
+            cf = self._closure_by_loc.get(args[1][1])
+            body = self.closure_value(cf, args[1]) if cf is not None else None
+            if body is not None:
+                payload = self.project(('down', opt, 'Some'), 0, env)
+
+                def sub1(v):
+                    if v == ('param', 'arg1'):
+                        return payload
+                    if isinstance(v, tuple):
+                        return tuple(sub1(x) if isinstance(x, tuple) else x for x in v)
+                    return v
+                mapped = sub1(body)
+                some_val = ('agg', 'Option::Some', ((0, mapped),)) if name == 'Option::map' else mapped
+                key = ('variant', opt, 'Option')
+                for lab, value in (('Some', some_val), ('None', ('agg', 'Option::None', ()))):
+                    if key in decided and not self._variant_possible(decided[key], lab):
+                        continue
+                    e2 = dict(env)
+                    ev2 = list(events)
+                    self.assign(fn, t.dest, value, e2, ev2, bb)
+                    d2 = dict(decided)
+                    d2[key] = ('is', lab)
+                    c2 = conds if (key in decided and decided[key][0] == 'is') else conds + [(key, lab)]
                     self._walk(fn, ret_bb, e2, c2, ev2, visited, d2, stops, out, depth, entry)
                 return None
         elif name == 'Try::branch' and len(args) == 1:
@@ -618,6 +665,24 @@ class Evaluator:
                                 env[ra[1]] = ('mut', name, i, args)
         self.assign(fn, t.dest, val, env, events, bb)
         return ret_bb, events, conds
+
+    @staticmethod
+    def _array_iter(v):
+        """(elements, position) if v is an iterator over a literal array of two or more elements (`[x; n]` is not told apart from `[x]`
+        in this model, so one-element arrays stay symbolic)"""
+        if isinstance(v, tuple) and v:
+            if v[0] == 'arrayiter':
+                return v[1], v[2]
+            if v[0] == 'iter' and isinstance(v[1], tuple) and v[1] and v[1][0] == 'array' and len(v[1][1]) >= 2:
+                return v[1][1], 0
+        return None
+
+    @staticmethod
+    def _variant_possible(have, lab) -> bool:
+        """is variant `lab` consistent with what is decided about the scrutinee: ('is', v) | ('not', (v1, ..))"""
+        if have[0] == 'is':
+            return have[1] == lab
+        return lab not in have[1]
 
     def _local(self, callee: str, name: str):
         if callee in self.fns:
@@ -709,6 +774,16 @@ class Evaluator:
                 elif key[0] == 'intval':
                     pass
                 else:
+                    # a boolean atom of the helper with the arguments substituted: normalise again (a parameter may have been
+                    # replaced by a constant or by a negation)
+                    key, pol = self.bool_atom(key)
+                    o = (o == pol) if isinstance(o, bool) else o
+                    if key[0] == 'const':
+                        if bool(key[1]) != o:
+                            ok = False
+                            break
+                        continue
+                    have = d2.get(key)
                     if have is not None:
                         if have != o:
                             ok = False
